@@ -17,8 +17,11 @@ ASSUMPTIONS = [
     "str.lower() being per code point apart from U+03A3 is CPython's do_lower, exercised by the n.lower / cased streams",
     "lone surrogates are not generated (text transport)",
 ]
-TRUSTED_EXTRA = ["re engine on the three name patterns: tied to the hand-written recognisers by the bounded-exhaustive stream and by per-code-point sweeps "
-                 "over all 0x110000 code points in four contexts (law.n.allcp)"]
+TRUSTED_EXTRA = ["re engine on the two .match patterns: Names/NamesRegex.v gives a backtracking matcher for the fragment in use and proves that the hand-written "
+                 "recognisers are what it computes on the transcribed patterns (C13_validate_regex_is_recogniser, C13_normalized_regex_is_recogniser); trusted are "
+                 "the transcription of the two pattern strings (flags included) and CPython's re implementing that semantics - both exercised by the "
+                 "bounded-exhaustive stream and by per-code-point sweeps over all 0x110000 code points in seven or more contexts (law.n.allcp)",
+                 "re.sub on [-_.]+ (leftmost, greedy, non-overlapping) is modelled by Names.sub_runs directly"]
 
 
 def streams(rng, tier):
